@@ -357,6 +357,45 @@ pub fn setup(c: Contract, stage: u8) -> Result<Setup, String> {
     }
 }
 
+/// has a sudo UpdateStatus entry point (every minter with a migrate entry point)
+pub fn is_minter(c: Contract) -> bool {
+    c.kind() == Kind::Vending
+        || matches!(c, Contract::OpenEditionMinter | Contract::OpenEditionMinterWlFlex | Contract::OpenEditionMinterMerkleWl | Contract::TokenMergeMinter)
+}
+
+/// `setup`, then governance acts on the contract through sudo before anything is migrated:
+/// minters: UpdateStatus with the flag triple `gov` encodes (bit 0 verified, 1 blocked,
+/// 2 explicit; gov = 8 stands for "all false, but explicitly set"); factories: gov = 1
+/// freezes the factory and moves several parameters.  gov = 0: governance never acted.
+pub fn setup_gov(c: Contract, stage: u8, gov: u8) -> Result<Setup, String> {
+    let mut s = setup(c, stage)?;
+    if gov == 0 {
+        return Ok(s);
+    }
+    let addr = s.addr.clone();
+    if is_minter(c) {
+        let g = gov % 8;
+        let msg = json!({"update_status": {"is_verified": g & 1 != 0, "is_blocked": g & 2 != 0, "is_explicit": g & 4 != 0}});
+        chain::sudo(&mut s.app, &addr, &msg).map_err(|e| format!("sudo {}: {}", msg, e))?;
+    } else if c.kind() == Kind::Factory {
+        let ext = match c {
+            Contract::BaseFactory => Value::Null,
+            Contract::OpenEditionFactory => json!({"max_token_limit": 4321, "max_per_address_limit": 9, "min_mint_price": null, "airdrop_mint_price": null, "airdrop_mint_fee_bps": 4400, "dev_fee_address": "govdev"}),
+            _ => json!({"max_token_limit": 4321, "max_per_address_limit": 9, "airdrop_mint_price": null, "airdrop_mint_fee_bps": 4400, "shuffle_fee": null}),
+        };
+        let msg = if c == Contract::TokenMergeFactory {
+            json!({"update_params": {"code_id": 55, "add_sg721_code_ids": [17], "rm_sg721_code_ids": [1], "frozen": true,
+                "creation_fee": coin_json(123_456, NATIVE), "max_trading_offset_secs": 4242, "extension": ext}})
+        } else {
+            json!({"update_params": {"code_id": 55, "add_sg721_code_ids": [17], "rm_sg721_code_ids": [1], "frozen": true,
+                "creation_fee": coin_json(123_456, NATIVE), "min_mint_price": coin_json(7_654_321, NATIVE), "mint_fee_bps": 321,
+                "max_trading_offset_secs": 4242, "extension": ext}})
+        };
+        chain::sudo(&mut s.app, &addr, &msg).map_err(|e| format!("sudo {}: {}", msg, e))?;
+    }
+    Ok(s)
+}
+
 fn first_token(app: &App, collection: &Addr, owner: &str) -> Result<String, String> {
     let r: Value = app
         .wrap()
@@ -496,7 +535,8 @@ pub fn get_cw2(app: &App, addr: &Addr) -> (String, String) {
 }
 
 /// the raw keys a migration is allowed to write (besides cw2's)
-pub const SLOT_KEYS: [&str; 8] = [
+pub const SLOT_KEYS: [&str; 9] = [
+    "status",
     "contract_info",
     "last_discount_time",
     "frozen_token_metadata",
@@ -518,6 +558,11 @@ pub fn slot_bool(raw: &Raw, key: &str) -> Option<bool> {
 }
 pub fn slot_addr(raw: &Raw, key: &str) -> Option<String> {
     slot_raw(raw, key).and_then(|v| serde_json::from_slice::<String>(v).ok())
+}
+/// the minter STATUS item: (is_verified, is_blocked, is_explicit)
+pub fn slot_status(raw: &Raw) -> Option<(bool, bool, bool)> {
+    let v: Value = slot_raw(raw, "status").and_then(|v| serde_json::from_slice(v).ok())?;
+    Some((v["is_verified"].as_bool()?, v["is_blocked"].as_bool()?, v["is_explicit"].as_bool()?))
 }
 pub fn slot_owner(raw: &Raw) -> Option<String> {
     slot_raw(raw, "ownership")
